@@ -52,6 +52,8 @@ type pkg struct {
 	strs    map[string]bool
 	imports map[string]string // alias -> path, per package (merged over files)
 	src     map[string][]string
+	falseC  map[string]bool     // package-level constants that are literally false
+	dead    map[string][][2]int // file -> line ranges of blocks guarded by such a constant
 }
 
 func nodeStr(fset *token.FileSet, n ast.Node) string {
@@ -65,7 +67,7 @@ var taintPkgs = map[string]bool{"net": true, "os": true, "os/exec": true, "net/h
 
 func load(root, dir string) *pkg {
 	p := &pkg{dir: dir, fset: token.NewFileSet(), files: map[string]*ast.File{}, funcs: map[string]*fn{},
-		types: map[string]*ast.TypeSpec{}, ints: map[int64]bool{}, strs: map[string]bool{}, imports: map[string]string{}, src: map[string][]string{}}
+		types: map[string]*ast.TypeSpec{}, ints: map[int64]bool{}, strs: map[string]bool{}, imports: map[string]string{}, src: map[string][]string{}, falseC: map[string]bool{}, dead: map[string][][2]int{}}
 	ents, err := os.ReadDir(filepath.Join(root, dir))
 	if err != nil {
 		return nil
@@ -174,6 +176,73 @@ func load(root, dir string) *pkg {
 	}
 	if len(p.files) == 0 {
 		return nil
+	}
+	for _, f := range p.files {
+		for _, d := range f.Decls {
+			if gd, ok := d.(*ast.GenDecl); ok && gd.Tok == token.CONST {
+				for _, sp := range gd.Specs {
+					vs := sp.(*ast.ValueSpec)
+					for i, nm := range vs.Names {
+						if i < len(vs.Values) {
+							if id, ok := vs.Values[i].(*ast.Ident); ok && id.Name == "false" {
+								p.falseC[nm.Name] = true
+							}
+						}
+					}
+				}
+			}
+		}
+	}
+	// a local `x := false` that is never assigned again guards dead code too
+	for n, f := range p.files {
+		for _, d := range f.Decls {
+			fd, ok := d.(*ast.FuncDecl)
+			if !ok || fd.Body == nil {
+				continue
+			}
+			falseL := map[string]int{}
+			ast.Inspect(fd.Body, func(y ast.Node) bool {
+				switch s := y.(type) {
+				case *ast.AssignStmt:
+					for i, l := range s.Lhs {
+						id, ok := l.(*ast.Ident)
+						if !ok {
+							continue
+						}
+						if s.Tok == token.DEFINE && len(s.Lhs) == len(s.Rhs) {
+							if r, ok := s.Rhs[i].(*ast.Ident); ok && r.Name == "false" {
+								falseL[id.Name]++
+								continue
+							}
+						}
+						falseL[id.Name] += 2 // any other assignment disqualifies
+					}
+				case *ast.UnaryExpr:
+					if id, ok := s.X.(*ast.Ident); ok && s.Op == token.AND {
+						falseL[id.Name] += 2
+					}
+				}
+				return true
+			})
+			ast.Inspect(fd.Body, func(y ast.Node) bool {
+				if is, ok := y.(*ast.IfStmt); ok && is.Init == nil {
+					if id, ok := is.Cond.(*ast.Ident); ok && falseL[id.Name] == 1 {
+						p.dead[n] = append(p.dead[n], [2]int{p.fset.Position(is.Body.Pos()).Line, p.fset.Position(is.Body.End()).Line})
+					}
+				}
+				return true
+			})
+		}
+	}
+	for n, f := range p.files {
+		ast.Inspect(f, func(y ast.Node) bool {
+			if is, ok := y.(*ast.IfStmt); ok && is.Init == nil {
+				if id, ok := is.Cond.(*ast.Ident); ok && p.falseC[id.Name] && (id.Obj == nil || id.Obj.Kind == ast.Con) {
+					p.dead[n] = append(p.dead[n], [2]int{p.fset.Position(is.Body.Pos()).Line, p.fset.Position(is.Body.End()).Line})
+				}
+			}
+			return true
+		})
 	}
 	return p
 }
@@ -472,6 +541,20 @@ func main() {
 				}
 				cf := changedFn{Dir: dir, Key: k, File: f.File, Start: f.Start, End: f.End, Taint: f.taint, New: !ok}
 				cf.Lines = changedLines(oldL, np.src[f.File][f.Start-1:f.End], f.Start)
+				// statements under `if debug {` with debug a constant false can never run
+				var live []int
+				for _, l := range cf.Lines {
+					isDead := false
+					for _, r := range np.dead[f.File] {
+						if l > r[0] && l <= r[1] {
+							isDead = true
+						}
+					}
+					if !isDead {
+						live = append(live, l)
+					}
+				}
+				cf.Lines = live
 				changed = append(changed, cf)
 			}
 		}
